@@ -7,6 +7,7 @@ __deepcopy__ record which reconstruction paths were actually exercised.
 from __future__ import annotations
 
 import copy
+import os
 import datetime as dt
 import pickle
 
@@ -22,7 +23,7 @@ DECIDING = ["datetime", "date", "time", "duration", "interval", "timezone"]
 FLOORS = {"quick": {"datetime": 100000, "date": 2000, "time": 2000, "duration": 30000, "interval": 20000, "timezone": 2000},
           "thorough": {"datetime": 10**6, "date": 20000, "time": 20000, "duration": 300000, "interval": 200000, "timezone": 4000}}
 REQUIRED_HOOKS = []
-TECHNIQUE = "differential runtime monitor: public-accessor tuple of original vs reconstruction for pickle protocols 0-5, copy and deepcopy; reduce/deepcopy hooks count the paths exercised; Durations from integer and float arguments and from operator results"
+TECHNIQUE = "differential runtime monitor: public-accessor tuple of original vs reconstruction for pickle protocols 0-5, copy and deepcopy; reduce/deepcopy hooks count the paths exercised; Durations from integer and float arguments and from operator results; DateTimes in a keyless Timezone built from a tz file (copy/deepcopy)"
 LEVEL_TEXT = ("every reconstruction (8 per value) is compared with the original through its public accessors (fields, instant, offset, "
               "fold, zone, components, sign, endpoints, absolute flag) and with ==; values include both folds of every overlap of "
               "every zone and every subset of Duration components; held on what was observed")
@@ -141,16 +142,18 @@ def cases(M):
             v["months"] = r.randrange(-20, 21)
         yield {"k": "dur", "v": v, "mask": -1, "float": True}
         yield {"k": "durop", "v": {kk: int(x) for kk, x in v.items()}, "op": j % 6, "f": r.choice((0.5, 1.5, 0.1, 1 / 3, 2.5005, -0.75)), "n": r.choice((2, 3, 7, -4))}
+    for j in range((40 if thorough else 12) if M.shard % 2 == 0 else 0):
+        yield {"k": "keyless", "z": ("Europe/Paris", "America/New_York", "Australia/Lord_Howe", "Asia/Tokyo")[j % 4], "u": gen.modern_instant(r), "u2": gen.random_instant(r)}
     for j in range(20000 if thorough else 2000):
         kind = ("naive", "fixed", "date", "time", "timetz", "ivdate", "ivdt", "ivnaive", "fixedtz", "randdt")[j % 10]
         yield {"k": kind, "u": gen.random_instant(r), "u2": gen.random_instant(r), "f": j % 2, "off": r.choice((r.randrange(-86399, 86400), r.randrange(-1439, 1440) * 60)),
                "abs": (j // 10) % 2, "z": r.choice(names)}
 
 
-def _judge(M, mon, v, sig_extra="", **ctx):
+def _judge(M, mon, v, sig_extra="", methods=None, **ctx):
     P = M.pendulum
     a0 = acc(v, P)
-    for name, fn in METHODS:
+    for name, fn in (methods or METHODS):
         try:
             r = fn(v)
         except Exception as e:  # noqa: BLE001
@@ -224,6 +227,28 @@ def run(M, c):
             return
         M.cls("dur", c["mask"], tuple(sorted((n, x > 0) for n, x in c["v"].items())))
         _judge(M, "duration", d, sig_extra=(":weeks" if d.weeks else "") + (":years-months" if d.years or d.months else "") + (":float-args" if c.get("float") else ""))
+        return
+    if k == "keyless":
+        # DateTimes in a Timezone that has no key: built from a tz file (what pendulum makes of TZ=:/path or of an
+        # /etc/localtime that is a plain file).  The standard library refuses to pickle such a zone, so only copy and
+        # deepcopy - which the statement demands of every DateTime - are judged
+        import zoneinfo as _zi
+
+        path = next((os.path.join(d_, c["z"]) for d_ in _zi.TZPATH if os.path.isfile(os.path.join(d_, c["z"]))), None)
+        if path is None:
+            M.count("keyless.no_tz_file")
+            return
+        with open(path, "rb") as f_:
+            tz = P.tz.timezone.Timezone.from_file(f_)
+        for u_, fold in ((c["u"], 0), (c["u"], 1), (c["u2"], 0)):
+            F_ = us_to_fields(u_)
+            try:
+                v = P.DateTime(*F_, tzinfo=tz, fold=fold)
+                v.utcoffset()
+            except (OverflowError, ValueError):
+                continue
+            _judge(M, "datetime", v, sig_extra=":keyless-timezone", methods=METHODS[6:], zone_file=c["z"])
+        M.cls("keyless", c["z"])
         return
     if k == "durop":
         try:
